@@ -26,9 +26,10 @@ func (t *vehiclesDurationObjectiveImpl) Lock(model Model) error {
 			TravelDurationExpression().
 			IsDependentOnTime()
 	}
-	// caching the vehicle type by index for performance
-	t.vehicleTypesByIndex = make([]ModelVehicleType, len(vehicleTypes))
-	for _, vehicle := range model.Vehicles() {
+	// caching the vehicle type by vehicle index for performance
+	vehicles := model.Vehicles()
+	t.vehicleTypesByIndex = make([]ModelVehicleType, len(vehicles))
+	for _, vehicle := range vehicles {
 		t.vehicleTypesByIndex[vehicle.Index()] = vehicle.VehicleType()
 	}
 	return nil
